@@ -504,6 +504,12 @@ func (a *allowerContext) aliasEventAllowed(event PDU) error {
 	if err != nil {
 		return err
 	}
+	if sender == nil {
+		return errorf("userID not found for sender %q in room %q", event.SenderID(), event.RoomID().String())
+	}
+	if event.StateKey() == nil {
+		return errorf("alias event must be a state event")
+	}
 
 	if event.RoomID().String() != a.create.roomID {
 		return errorf(
